@@ -2,6 +2,7 @@
 package c02
 
 import (
+	"bytes"
 	"errors"
 	"fmt"
 	"testing"
@@ -13,6 +14,7 @@ import (
 	"verif/harness/hx"
 	"verif/harness/memnet"
 	"verif/harness/ref"
+	"verif/harness/simbmc"
 )
 
 var ev *evid.E
@@ -92,6 +94,25 @@ func attempt(c hx.Creds, m *Mutation) (o outcome) {
 			}
 			w.BMC.Users[c.User] = p
 			o.changed = string(ref.PadKey(p)) != string(ref.PadKey(c.Password))
+		case "zeroTailCut":
+			// the BMC's random number happens to make the AuthCode (RAKP 2) or the
+			// integrity check value (RAKP 4) end in m.Off zero bytes
+			w.BMC.AcceptRC = func(b *simbmc.BMC, s *simbmc.Session) bool {
+				code := s.RAKP.RAKP2Code(s.Kuid)
+				if m.Step == "rakp4" {
+					kg := s.Kuid
+					if len(b.KG) > 0 {
+						kg = ref.PadKey(b.KG)
+					}
+					code = s.RAKP.RAKP4ICV(s.RAKP.SIK(kg))
+				}
+				for _, x := range code[len(code)-m.Off:] {
+					if x != 0 {
+						return false
+					}
+				}
+				return true
+			}
 		case "kg":
 			if len(c.KG) == 0 {
 				w.BMC.KG = []byte("a key the console does not know")[:20]
@@ -164,6 +185,15 @@ func attempt(c hx.Creds, m *Mutation) (o outcome) {
 			case "tag":
 				if pl[0] != m.Value {
 					pl[0] = m.Value
+					o.changed = true
+				}
+			case "zeroTailCut":
+				// the zero bytes at the end of the code are cut off (length field fixed up)
+				if tail := pl[len(pl)-m.Off:]; m.Off < len(pl) && bytes.Equal(tail, make([]byte, m.Off)) {
+					keep := len(pl) - m.Off
+					nb := append([]byte(nil), b[:16+keep]...)
+					nb[14], nb[15] = byte(keep), byte(keep>>8)
+					outs[i].Data = nb
 					o.changed = true
 				}
 			case "cutPayload":
@@ -284,6 +314,14 @@ func enumerate(auth uint8) []Mutation {
 				ms = append(ms, Mutation{Kind: "flip", Step: step, Off: pl[step] - 1, Bit: uint(lost), LoseFirst: lost})
 			}
 			ms = append(ms, Mutation{Kind: "cutPayload", Step: step, Off: pl[step] - 1, LoseFirst: lost}, Mutation{Kind: "cutPayload", Step: step, Off: 8, LoseFirst: lost})
+		}
+	}
+	// an AuthCode / integrity check value that ends in zero bytes, with those bytes
+	// cut off: a shorter code is not the code
+	for _, step := range []string{"rakp2", "rakp4"} {
+		ms = append(ms, Mutation{Kind: "zeroTailCut", Step: step, Off: 1}, Mutation{Kind: "zeroTailCut", Step: step, Off: 1, LoseFirst: 1})
+		if ev.Thorough() {
+			ms = append(ms, Mutation{Kind: "zeroTailCut", Step: step, Off: 2})
 		}
 	}
 	return ms
@@ -459,9 +497,14 @@ func TestRandom(t *testing.T) {
 		c := hx.GenCreds(hx.Suites12()).Draw(t, "creds")
 		c.DefaultSuites = hx.IsLibraryDefault(c.Suite) && rapid.Bool().Draw(t, "defaultSuiteList")
 		pl := payloadLens(c.Suite.Auth)
-		m := Mutation{Kind: rapid.SampledFrom([]string{"password", "kg", "pwprefix", "pwextend", "pwbyte", "flip", "flip", "flip", "status", "statusShort", "tag", "cutPayload", "cutRaw"}).Draw(t, "kind")}
+		m := Mutation{Kind: rapid.SampledFrom([]string{"password", "kg", "pwprefix", "pwextend", "pwbyte", "flip", "flip", "flip", "status", "statusShort", "tag", "cutPayload", "cutRaw", "zeroTailCut"}).Draw(t, "kind")}
 		m.Step = rapid.SampledFrom([]string{"open", "rakp2", "rakp4"}).Draw(t, "step")
 		switch m.Kind {
+		case "zeroTailCut":
+			if m.Step == "open" {
+				m.Step = "rakp2"
+			}
+			m.Off = 1
 		case "flip":
 			lo, hi := map[string]int{"open": 8, "rakp2": 4, "rakp4": 8}[m.Step], map[string]int{"open": 11, "rakp2": pl["rakp2"] - 1, "rakp4": pl["rakp4"] - 1}[m.Step]
 			m.Off, m.Bit = rapid.IntRange(lo, hi).Draw(t, "off"), uint(rapid.IntRange(0, 7).Draw(t, "bit"))
@@ -488,7 +531,7 @@ func TestRandom(t *testing.T) {
 func TestCoverage(t *testing.T) {
 	var need []string
 	for _, a := range []int{1, 2, 3} {
-		for _, k := range []string{"flip:rakp2", "flip:open", "flip:rakp4", "status:open", "status:rakp2", "status:rakp4", "tag:rakp2", "cutPayload:rakp2", "cutRaw:rakp4", "statusShort:open"} {
+		for _, k := range []string{"flip:rakp2", "flip:open", "flip:rakp4", "status:open", "status:rakp2", "status:rakp4", "tag:rakp2", "cutPayload:rakp2", "cutRaw:rakp4", "statusShort:open", "zeroTailCut:rakp2", "zeroTailCut:rakp4"} {
 			need = append(need, fmt.Sprintf("auth%d:%s", a, k))
 		}
 	}
